@@ -285,6 +285,11 @@ pub struct Log {
     /// `Iterator::nth` (like a driver that sets an address window) instead of pulling them one by
     /// one, and does not drain the rest of the stream
     pub skip_invisible_with_nth: bool,
+    /// the target consumes the iterators it is given by internal iteration (`for_each`, i.e.
+    /// `Iterator::fold`) instead of a `for` loop over `next()`, as an infallible driver written in
+    /// iterator style does; a step budget cannot stop such a loop early (the per-case watchdog
+    /// bounds it), items beyond the budget are ignored and flagged
+    pub internal_iteration: bool,
     /// items (pixels/colours) consumed so far and the step budget
     pub items: u64,
     pub budget: u64,
@@ -299,6 +304,7 @@ impl Log {
             touched: FastSet::default(),
             track_touched: false,
             skip_invisible_with_nth: false,
+            internal_iteration: false,
             out_of_box: 0,
             events: Vec::new(),
             keep_pixels: false,
@@ -368,6 +374,24 @@ impl Log {
         let mut n = 0u64;
         let mut h = 0x1234u64;
         let mut px = Vec::new();
+        if self.internal_iteration {
+            pixels.into_iter().for_each(|Pixel(p, c)| {
+                if self.items >= self.budget {
+                    self.over_budget = true;
+                    return;
+                }
+                self.items += 1;
+                n += 1;
+                let c = c.to_u32();
+                h = mix(h, mix(mix(p.x as u32 as u64, p.y as u32 as u64), c as u64));
+                if self.keep_pixels {
+                    px.push((p.x, p.y, c));
+                }
+                self.put(p.x, p.y, c);
+            });
+            self.push_event(Kind::DrawIter, None, n, h, px, Vec::new());
+            return Ok(());
+        }
         for Pixel(p, c) in pixels {
             if self.items >= self.budget {
                 self.over_budget = true;
@@ -394,6 +418,33 @@ impl Log {
         let mut h = mix(mix(a.0 as u32 as u64, a.1 as u32 as u64), mix(a.2 as u64, a.3 as u64));
         let mut cols = Vec::new();
         let mut ended = false;
+        if self.internal_iteration {
+            // row-major assignment driven by the colour stream itself; colours beyond the area are pulled and ignored
+            let total = a.2 as u64 * a.3 as u64;
+            let mut i = 0u64;
+            it.for_each(|c| {
+                if self.items >= self.budget {
+                    self.over_budget = true;
+                    return;
+                }
+                self.items += 1;
+                n += 1;
+                let c = c.to_u32();
+                h = mix(h, c as u64);
+                if self.keep_pixels {
+                    cols.push(c);
+                }
+                if i < total {
+                    let (x, y) = (a.0 as i64 + (i % a.2 as u64) as i64, a.1 as i64 + (i / a.2 as u64) as i64);
+                    if x >= i32::MIN as i64 && x <= i32::MAX as i64 && y >= i32::MIN as i64 && y <= i32::MAX as i64 {
+                        self.put(x as i32, y as i32, c);
+                    }
+                }
+                i += 1;
+            });
+            self.push_event(Kind::FillContiguous, Some(a), n, h, Vec::new(), cols);
+            return Ok(());
+        }
         if self.skip_invisible_with_nth {
             let b = rt(&self.bbox);
             let mut pending = 0usize;
